@@ -1,5 +1,6 @@
 import OidcModel.Proofs.C01
 import OidcModel.Proofs.C02
+import OidcModel.Proofs.C03
 import OidcModel.Proofs.C04
 import OidcModel.Proofs.C07
 import OidcModel.Proofs.C12
